@@ -55,13 +55,13 @@ inductive Out where
 deriving Repr, DecidableEq
 
 /-- `PrepareRun`: fresh processors; restored trigger settings (EdgeMulti forced off, EMT state
-zero) or the all-disabled default. -/
+zero except for its copy of the record lengths, which is synced) or the all-disabled default. -/
 def prepare (nch : Nat) (npre nsamp : Int) (saved : List (Nat × TS)) : Src :=
   let mk (i : Nat) : Chan :=
     let ts := match saved.find? (·.1 == i) with
       | some (_, ts) => { ts with edgeMulti := false }
       | none => {}
-    { npre, nsamp, ts, emt := {} }
+    { npre, nsamp, ts, emt := { npre := npre, nsamp := nsamp } }
   { chans := (List.range nch).map mk, broker := C09.Broker.new nch, statusNpre := npre, statusNsamp := nsamp }
 
 def ztOf (tbl : List (Int × Int)) : ZT := fun pos =>
@@ -171,6 +171,7 @@ structure Case where
   ops : List Op
   outs : Option (List Out)      -- `none` = the implementation panicked
   panicClass : String
+  outsOne : Option (List Out) := none   -- C08: the same stream delivered as ONE block (implementation's output)
 
 open P in
 def parseTS : P TS := do
@@ -239,7 +240,13 @@ def parseCase : P Case := do
     pure { nch, npre, nsamp, saved, zts, ops, outs := none, panicClass := cls }
   else
     let outs ← list (parseOut nch)
-    pure { nch, npre, nsamp, saved, zts, ops, outs := some outs, panicClass := "" }
+    let pk2 ← peek
+    if pk2 == some "ONE" then
+      let _ ← tok
+      let one ← list (parseOut nch)
+      pure { nch, npre, nsamp, saved, zts, ops, outs := some outs, panicClass := "", outsOne := some one }
+    else
+      pure { nch, npre, nsamp, saved, zts, ops, outs := some outs, panicClass := "" }
 
 /-- index of the first differing output, with a short description -/
 def diffOuts : List Out → List Out → Nat → Option String
